@@ -56,6 +56,14 @@ def t_xy():
 
 
 @gen
+def t_xyk(m0, shift=0.0):
+    """the "xy" target written with arguments: prior mean (positional) and an observation shift (keyword with a default).
+    With m0 = 0 and y_observed = y + shift it is the same posterior as t_xy with y."""
+    x = normal(m0, 1.0) @ "x"
+    normal(x + shift, 1.0) @ "y"
+
+
+@gen
 def t_vec():
     x = normal(jnp.zeros(2), 1.0) @ "x"
     normal(x, 1.0) @ "y"
@@ -118,18 +126,26 @@ def run_gradient_kernels(chk, tier):
             per = 60 if tier == "quick" else 1200
             if len(cases) > per:
                 cases = rng.sample(cases, per)
-            for (_, kern, tg, steps, x, y, S, eps, tau, xn, la) in cases:
+            for n_case, (_, kern, tg, steps, x, y, S, eps, tau, xn, la) in enumerate(cases):
                 x = {k: _f(v) for k, v in x.items()}
                 eps = {k: _f(v) for k, v in eps.items()}
                 xn = {k: _f(v) for k, v in xn.items()}
                 yv, tv, lav = _f(y), _f(tau), _f(la)
                 S = sorted(S)
-                ck = f"{kern}|{tg}|x={sorted(x.items())}|y={yv}|S={S}|eps={sorted(eps.items())}|tau={tv}|L={steps}"
+                ck = f"{kern}|{tg}{'(kwargs)' if tg == 'xy' and n_case % 2 == 1 else ''}|x={sorted(x.items())}|y={yv}|S={S}|eps={sorted(eps.items())}|tau={tv}|L={steps}"
                 chk.case(ck)
                 chk.validated(1)
                 bad = []
                 try:
-                    if tg == "xy":
+                    ydelta = 0.0
+                    if tg == "xy" and n_case % 2 == 1:
+                        # the same target through a program with a positional and a keyword argument (non-default value): the
+                        # kernels must evaluate density, gradient and update under the arguments the trace records
+                        ydelta = 0.5
+                        tr, _ = t_xyk.generate({"x": x["x"], "y": yv + ydelta}, 0.0, shift=ydelta)
+                        selection, leaves = sel("x"), [("x", np.float32(eps["x"]))]
+                        get = lambda t: {"x": float(t.get_choices()["x"])}
+                    elif tg == "xy":
                         tr, _ = t_xy.generate({"x": x["x"], "y": yv})
                         selection, leaves = sel("x"), [("x", np.float32(eps["x"]))]
                         get = lambda t: {"x": float(t.get_choices()["x"])}
@@ -173,7 +189,7 @@ def run_gradient_kernels(chk, tier):
                                 bad.append(f"noise for address {c} was requested with shape {req}, the choice has shape {np.shape(v)}: "
                                            f"not one independent standard normal per coordinate")
                         # observed (unselected) addresses untouched
-                        if float(np.max(np.abs(np.asarray(out.get_choices()["y"]) - yv))) != 0.0:
+                        if float(np.max(np.abs(np.asarray(out.get_choices()["y"]) - (yv + ydelta)))) != 0.0:
                             bad.append("observed address y changed")
                 except Exception as ex:
                     bad.append(f"raised {type(ex).__name__}: {str(ex).splitlines()[0][:160] if str(ex) else ''}")
